@@ -141,10 +141,12 @@ PLAN = {
         "quick": [
             {"run": "TestC12_Model", "checks": 4000},
             {"run": "TestC12_Timed", "checks": 120},
+            {"run": "TestC12_SearchCache", "checks": 3000},
         ],
         "thorough": [
             {"run": "TestC12_Model", "checks": 200000, "shards": 12, "timeout": 3000},
             {"run": "TestC12_Timed", "checks": 2000, "shards": 4, "timeout": 3000},
+            {"run": "TestC12_SearchCache", "checks": 100000, "shards": 2, "timeout": 3000},
         ],
     },
     "C13": {
@@ -180,7 +182,9 @@ PLAN = {
         ],
     },
     "C16": {
+        "wtf": True,
         "quick": [
+            {"run": "TestC16_CLIViews", "checks": 40},
             {"run": "TestC16_Log", "checks": 3000},
             {"run": "TestC16_File", "checks": 20000},
             {"run": "FuzzC16_HistoryFile"},
@@ -188,6 +192,7 @@ PLAN = {
         "thorough": [
             {"run": "TestC16_Log", "checks": 150000, "shards": 10, "timeout": 3000},
             {"run": "TestC16_File", "checks": 1000000, "shards": 6, "timeout": 3000},
+            {"run": "TestC16_CLIViews", "checks": 1500, "shards": 2, "timeout": 3000},
             {"run": "FuzzC16_HistoryFile", "fuzz": "FuzzC16_HistoryFile", "fuzztime": "120s", "parallel": 16, "timeout": 900},
         ],
     },
